@@ -39,3 +39,63 @@ Example C13_example :
   c_int TL (PInt 9223372036854775808) = None /\ c_int TI (PBool true) = Some 1 /\
   c_int TI (PIndex 5) = None /\ py_int TI (PIndex 5) = Some 5 /\ c_int TI PFloat = None.
 Proof. vm_compute. repeat split. Qed.
+
+(* ---------- float values: "floats as their single-precision rounding" ----------
+   Model/Float32.v is COPY_VALUE_FROM_ARG of floatvaluemacros.h with the C cast
+   and PyLong_AsDouble as Flocq's IEEE 754 operations.  The specification is
+   Flocq's: [round radix2 (FLT_exp (-149) 24) ZnearestE x] is the binary32
+   number nearest to the real x, ties to even.  These four theorems are stated
+   over the standard library's real numbers and depend on its axioms (listed
+   by Print Assumptions below and named in DESIGN.md section 7); the integer
+   theorems above stay closed. *)
+From Coq Require Import Reals.
+From Flocq Require Import Core.Core IEEE754.BinarySingleNaN.
+From BT Require Import Model.Float32 Proofs.Float32Proofs.
+
+(* a float argument m * 2^e is stored as its nearest binary32 number, or as an infinity when that is out of range *)
+Theorem C13_float_rounding :
+  forall m e : Z,
+  let x := F2R (Float radix2 m e) in
+  if Rlt_bool (Rabs (rne fmt32 x)) (bpow radix2 128)
+  then B2R (round32 m e) = rne fmt32 x /\ is_finite (round32 m e) = true
+  else B2SF (round32 m e) = SpecFloat.S754_infinity (Rlt_bool x 0).
+Proof. exact Float32Proofs.round32_correct. Qed.
+
+(* representable data reads back equal to what was written *)
+Theorem C13_float_exact :
+  forall m e : Z,
+  let x := F2R (Float radix2 m e) in
+  generic_format radix2 fmt32 x -> (Rabs x < bpow radix2 128)%R ->
+  B2R (round32 m e) = x /\ is_finite (round32 m e) = true.
+Proof. exact Float32Proofs.round32_exact. Qed.
+
+(* an int is accepted exactly when it fits a double, and goes through the double *)
+Theorem C13_float_from_int :
+  forall n : Z,
+  if Rlt_bool (Rabs (rne fmt64 (IZR n))) (bpow radix2 1024)
+  then exists r, conv_float (FInt n) = Some r /\
+       let x := rne fmt64 (IZR n) in
+       if Rlt_bool (Rabs (rne fmt32 x)) (bpow radix2 128)
+       then B2R r = rne fmt32 x /\ is_finite r = true
+       else B2SF r = SpecFloat.S754_infinity (Rlt_bool x 0)
+  else conv_float (FInt n) = None.
+Proof. exact Float32Proofs.conv_int_correct. Qed.
+
+Theorem C13_float_stored_is_single :
+  forall (a : farg) (r : single), conv_float a = Some r -> generic_format radix2 fmt32 (B2R r).
+Proof. exact Float32Proofs.stored_is_single. Qed.
+
+(* 16777217 = 2^24 + 1 is not a float32: stored as 2^24; 0.1 is rounded; 2^-150 is a tie that goes to zero;
+   an int beyond the doubles is rejected; 4 * 10^38 fits a double and becomes an infinity *)
+Example C13_float_examples :
+  obs_of (conv_float (FDouble 16777217 0)) = OFinite false 1 24 /\
+  obs_of (conv_float (FDouble 3602879701896397 (-55))) = OFinite false 13421773 (-27) /\
+  obs_of (conv_float (FDouble 1 (-150))) = OZero false /\
+  obs_of (conv_float (FInt (2 ^ 1024))) = ORejected /\
+  obs_of (conv_float (FInt (4 * 10 ^ 38))) = OInf false /\
+  obs_of (conv_float (FInt 16777217)) = OFinite false 1 24.
+Proof. vm_compute. repeat split. Qed.
+Print Assumptions C13_float_rounding.
+Print Assumptions C13_float_exact.
+Print Assumptions C13_float_from_int.
+Print Assumptions C13_float_stored_is_single.
